@@ -466,7 +466,17 @@ def describe_write(ctx, an):
             elif s[0] == "int-part":
                 f = field_of_place(s[3][1]) if s[3] and s[3][0] == "place" else ""
                 wr = s[5].c if s[5] is not None and s[5].is_const() else None
-                items.append("u%s%s" % (wr * 8 if wr else "?", (":" + f) if f else ""))
+                off0 = s[4].c if s[4] is not None and s[4].is_const() else None
+                # which bytes of the integer's byte image, in which order: the low-order `wr` bytes most significant first
+                # (`to_be_bytes()[W-wr..]`) are a big-endian integer of wr bytes; the same bytes taken from the little-endian
+                # image come out reversed; anything else (high-order bytes, a middle slice) is neither
+                if wr is not None and off0 is not None and s[1] == "BE" and off0 + wr == s[2]:
+                    sfx = ""
+                elif wr is not None and off0 == 0 and s[1] == "LE":
+                    sfx = "le"
+                else:
+                    sfx = "@%s%s" % (s[1], off0 if off0 is not None else "?")
+                items.append("u%s%s%s" % (wr * 8 if wr else "?", sfx, (":" + f) if f else ""))
             elif s[0] == "array":
                 for src in (s[2] or [None] * s[1]):
                     if src is not None and src[0] == "place":
